@@ -3,6 +3,7 @@ package drv
 import (
 	"io"
 	"os"
+	"sync"
 	"fmt"
 	"runtime/debug"
 	"sort"
@@ -52,6 +53,19 @@ func CanonDT(v any, dt ast.DType) string {
 	return Canon(v)
 }
 
+// traces maps an input point to the trace of the run using it (concurrent
+// runs on distinct points each get their own trace).
+var traces sync.Map
+
+func traceOf(ctx *plrt.Task) *Trace {
+	if in := ctx.InData(); in != nil {
+		if t, ok := traces.Load(in); ok {
+			return t.(*Trace)
+		}
+	}
+	return cur
+}
+
 func probeCall(ctx *plrt.Task, e *ast.CallExpr) *errchain.PlError {
 	var parts []string
 	var last any
@@ -64,13 +78,35 @@ func probeCall(ctx *plrt.Task, e *ast.CallExpr) *errchain.PlError {
 		parts = append(parts, CanonDT(v, dt))
 		last, lastT = v, dt
 	}
-	if cur != nil {
-		cur.Recs = append(cur.Recs, "p("+strings.Join(parts, ",")+")")
+	if tr := traceOf(ctx); tr != nil {
+		tr.Recs = append(tr.Recs, "p("+strings.Join(parts, ",")+")")
 	}
 	if len(e.Param) > 0 {
 		ctx.Regs.ReturnAppend(last, lastT)
 	}
 	return nil
+}
+
+// RunConcurrent is Run for use from several goroutines at once: the trace is
+// attached to the point instead of the package-level current trace.
+func RunConcurrent(s *plrt.Script, pt *input.Point, sig *Sig) (res Result) {
+	tr := &Trace{}
+	traces.Store(any(pt), tr)
+	defer func() {
+		traces.Delete(any(pt))
+		if r := recover(); r != nil {
+			res.Panic = fmt.Sprint(r)
+			res.Stack = string(debug.Stack())
+		}
+		res.Trace = tr.Recs
+		res.Point = CanonPoint(pt)
+	}()
+	var sg plrt.Signal
+	if sig != nil {
+		sg = sig
+	}
+	res.Err = s.Run(pt, sg)
+	return res
 }
 
 func probeCheck(ctx *plrt.Task, e *ast.CallExpr) *errchain.PlError { return nil }
